@@ -4040,3 +4040,81 @@ pub fn verif_all_entries<T: BackendTransaction>(
 ) -> Result<Vec<Arc<EntrySealedCommitted>>, OperationError> {
     be.get_idlayer().get_identry(&IdList::AllIds)
 }
+
+/// verif hook (C03): raw (SQLite, cache-bypassing) content of every index and name table,
+/// the private `entry_index`, and the cached index read path.
+#[cfg(feature = "verif-hooks")]
+pub struct VerifC03Raw {
+    /// (table name, [(key, ids ascending)])
+    pub idx: Vec<(String, Vec<(String, Vec<u64>)>)>,
+    pub name2uuid: Vec<(String, String)>,
+    pub externalid2uuid: Vec<(String, String)>,
+    pub uuid2spn: Vec<(String, Option<Value>)>,
+    pub uuid2rdn: Vec<(String, String)>,
+}
+
+#[cfg(feature = "verif-hooks")]
+impl BackendWriteTransaction<'_> {
+    pub fn verif_c03_entry_index(
+        &mut self,
+        pre: Option<&EntrySealedCommitted>,
+        post: Option<&EntrySealedCommitted>,
+    ) -> Result<(), OperationError> {
+        self.entry_index(pre, post)
+    }
+
+    pub fn verif_c03_delete_identry(&mut self, ids: Vec<u64>) -> Result<(), OperationError> {
+        self.idlayer.delete_identry(ids.into_iter())
+    }
+
+    pub fn verif_c03_cached_idl(
+        &mut self,
+        attr: &Attribute,
+        itype: IndexType,
+        key: &str,
+    ) -> Result<Option<Vec<u64>>, OperationError> {
+        self.idlayer
+            .get_idl(attr, itype, key)
+            .map(|o| o.map(|idl| idl.into_iter().collect()))
+    }
+
+    pub fn verif_c03_raw(&mut self) -> Result<VerifC03Raw, OperationError> {
+        use crate::be::idl_sqlite::IdlSqliteTransaction as _;
+        let db = &mut self.idlayer.db;
+        let mut idx = Vec::new();
+        let mut tables = db.list_idxs()?;
+        tables.sort_unstable();
+        for t in tables {
+            if matches!(
+                t.as_str(),
+                "idx_name2uuid" | "idx_externalid2uuid" | "idx_uuid2spn" | "idx_uuid2rdn"
+            ) {
+                continue;
+            }
+            let rows = db
+                .list_index_content(&t)?
+                .into_iter()
+                .map(|(k, idl)| (k, idl.into_iter().collect::<Vec<u64>>()))
+                .collect();
+            idx.push((t, rows));
+        }
+        let name2uuid = db.verif_c03_text_table("idx_name2uuid", "name", "uuid")?;
+        let externalid2uuid = db.verif_c03_text_table("idx_externalid2uuid", "eid", "uuid")?;
+        let uuid2rdn = db.verif_c03_text_table("idx_uuid2rdn", "uuid", "rdn")?;
+        let mut uuid2spn = Vec::new();
+        for (u, _) in db.verif_c03_text_table("idx_uuid2spn", "uuid", "uuid")? {
+            let v = match Uuid::parse_str(&u) {
+                Ok(uuid) => db.uuid2spn(uuid)?,
+                Err(_) => None,
+            };
+            uuid2spn.push((u, v));
+        }
+        Ok(VerifC03Raw {
+            idx,
+            name2uuid,
+            externalid2uuid,
+            uuid2spn,
+            uuid2rdn,
+        })
+    }
+}
